@@ -89,6 +89,15 @@ class ConfigList(ComposedNode, list):
     def get_child(self, index, default=None):
         return self._get(index, default=default, raise_ex=False)
 
+    @namespace('ayns')
+    def has_child(self, index):
+        # like get_child (and item access): an element can be addressed from the end as well
+        try:
+            self._validate_index(index)
+        except (IndexError, TypeError):
+            return False
+        return True
+
     def __contains__(self, value):
         return list.__contains__(self, value)
 
